@@ -8,6 +8,7 @@ import (
 	"go/constant"
 	"go/types"
 	"sort"
+	"strings"
 )
 
 func init() { register("C03", runC03) }
@@ -38,6 +39,7 @@ func runC03(c *Ctx) {
 			{"lossless.CodeLengthRepeatOffsets", "vp8l.repeatOffsets", "offsets of the repeat codes 16/17/18"},
 		}, "A8-tables")
 		bitBudget(c, p)
+		paletteTable(c, p)
 		relation(c, "A8-relations", "bitio.kBitMask", repo, []string{"bitio.kBitMask"}, "kBitMask[n] = (1<<n) - 1", func(t [][]int64) (bool, string) {
 			for n, v := range t[0] {
 				if v != (int64(1)<<uint(n))-1 {
@@ -142,4 +144,72 @@ func c03Handlers(c *Ctx, p *Program) {
 		c.Check(stored[k] || stored["dsp.LosslessPredictors[*]"], "A8-handlers", k, "", "predictor slot initialised", "lossless predictor mode has no function: a stream using it would call nil")
 	}
 	_ = n
+}
+
+// B2 palette table: the colour-indexing inverse transform looks its (possibly packed) pixel values
+// up in the colour table and leaves the output untouched for an index beyond the table; the format
+// defines such a pixel as transparent black. So the table the decoder builds must have
+// 1 << (8 >> bits) entries - every value a packed index can take - with zeros behind the transmitted
+// colours. The table builder (found by signature: func(int, int, []uint32) []uint32 in the decoder
+// files of internal/lossless) is evaluated by S8 for each packing (bits 3,2,1,0 with 2,3,5,17
+// transmitted colours): the result's length and the entries behind the transmitted colours are read
+// off the abstract memory.
+func paletteTable(c *Ctx, p *Program) {
+	c.Rule("B2 palette table: the function that expands a transmitted palette into the colour-indexing transform's table returns, for every packing (bits 0..3), a table of 1<<(8>>bits) entries whose entries behind the transmitted colours are 0 (S8 evaluation with concrete sizes and symbolic colours): the inverse transform skips the store for an index beyond the table, where the format defines transparent black")
+	pk := p.SSAPkg("internal/lossless")
+	if pk == nil {
+		return
+	}
+	n := 0
+	for _, fn := range p.SrcFuncs() {
+		if fn.Pkg != pk || fn.Blocks == nil || fn.Signature.Recv() != nil || !strings.Contains(p.Pos(fn.Pos()), "decode") {
+			continue
+		}
+		sg := fn.Signature
+		if sg.Params().Len() != 3 || sg.Results().Len() != 1 {
+			continue
+		}
+		if types.TypeString(sg.Params().At(0).Type(), nil) != "int" || types.TypeString(sg.Params().At(1).Type(), nil) != "int" ||
+			types.TypeString(sg.Params().At(2).Type(), nil) != "[]uint32" || types.TypeString(sg.Results().At(0).Type(), nil) != "[]uint32" {
+			continue
+		}
+		n++
+		c.Func(FnName(fn))
+		bad := ""
+		for _, pr := range [][2]int64{{2, 3}, {3, 2}, {5, 1}, {17, 0}} {
+			nc, bits := pr[0], pr[1]
+			want := int64(1) << uint(8>>uint(bits))
+			err := kernelEval(func(x *kx) {
+				pal := x.newObj("palette")
+				pal.input = func(off int64) (string, int64, int64, bool) {
+					if off < 0 || off >= nc {
+						return "", 0, 0, false
+					}
+					return fmt.Sprintf("pal(%d)", off), 0, 1<<32 - 1, true
+				}
+				r := x.call(fn, []kval{kint(nc), kint(bits), {kind: kvSlice, obj: pal, ln: nc, cp: nc}}, nil)
+				if r.kind != kvSlice {
+					kfail("the result is not a slice")
+				}
+				if r.ln != want {
+					kfail("for %d transmitted colours packed with bits=%d the table has %d entries; the inverse transform can look up %d different values", nc, bits, r.ln, want)
+				}
+				for i := nc; i < want; i++ {
+					v := x.load(r.obj, r.off+i, types.Typ[types.Uint32])
+					if v.kind != kvNum || !v.n.isConst() || v.n.c != 0 {
+						kfail("entry %d of the table (behind the %d transmitted colours, bits=%d) is not 0", i, nc, bits)
+					}
+				}
+			})
+			if err != nil && bad == "" {
+				bad = err.Error()
+			}
+		}
+		c.Check(bad == "", "B2-palette-table", FnName(fn), p.Pos(fn.Pos()),
+			"for every packing the table has 1<<(8>>bits) entries, zero behind the transmitted colours",
+			fn.Name()+": "+bad+": a pixel whose colour index lies beyond the table keeps whatever the output buffer held (stale pixels of an earlier decode or of the previous transform) instead of transparent black")
+	}
+	if n == 0 {
+		c.AnchorMissing("B2-palette-table", "palette expansion function func(int, int, []uint32) []uint32 in the decoder")
+	}
 }
